@@ -14,9 +14,12 @@
 EXTENDS Integers, Sequences, FiniteSets, TLC
 
 CONSTANTS MaxDepth,     \* nesting depth of directories (1 = target holds files only)
-          MaxEntries    \* entries per directory
+          MaxEntries,   \* entries per directory
+          ExtraKinds    \* further kinds of non-owned entries in the pool ({} or {"L"})
 
-FileNames == {"G", "M", "U", "O"}
+\* "L": a symbolic link to a directory OUTSIDE the target that itself holds a generated file and a manifest of another
+\* generator run: an entry the generator does not own, and not a directory of the tree (never followed)
+FileNames == {"G", "M", "U", "O"} \cup ExtraKinds
 DirNames == {"d1", "d2"}
 Owned(k) == k \in {"G", "M"}
 
